@@ -367,7 +367,20 @@ def minimize_whitespace_line_differences(source: str, new_source: str) -> Tuple[
         elif identifier == "-" and not "".join(lines).strip():  # Present in old, only whitespace
             new_lines.extend(lines)
 
-    new_source = "".join(new_lines)
+    minimized_source = "".join(new_lines)
+    if (
+        minimized_source != new_source
+        and core.is_valid_python(new_source)
+        and not (
+            core.is_valid_python(minimized_source)
+            and _sources_equivalent(new_source, minimized_source)
+        )
+    ):
+        # A blank line is not always white space: inside a string literal it is part of a value.
+        # The differences are only minimized when that leaves the same program.
+        new_lines = new_source.splitlines(keepends=True)
+    else:
+        new_source = minimized_source
 
     while old_lines and new_lines and old_lines[0] == new_lines[0]:
         old_lines.pop(0)
@@ -434,6 +447,15 @@ def _pad_braces(source: str, start: int, end: int, new_code: str) -> str:
 def _significant_lines(code: str) -> Sequence[str]:
     """The lines of code without blank lines and trailing whitespace."""
     return [line.rstrip() for line in code.splitlines() if line.strip()]
+
+
+def _same_significant_lines(code: str, new_code: str) -> bool:
+    """Do code and new_code differ at most in blank lines and trailing whitespace that mean nothing?
+
+    Inside a multi-line string literal blank lines and trailing blanks are part of a value."""
+    return _significant_lines(new_code) == _significant_lines(code) and not (
+        _lines_inside_string_literals(code) or _lines_inside_string_literals(new_code)
+    )
 
 
 def _shares_call_parentheses(source: str, rng: core.Range, code: str) -> bool:
@@ -503,7 +525,7 @@ def _do_rewrite(
             return source
 
         # Prevent whitespace-only changes from being applied
-        if not scheduled and _significant_lines(new_code) == _significant_lines(code):
+        if not scheduled and _same_significant_lines(code, new_code):
             return source
 
         if old.start > len(source) and new_code:
@@ -894,7 +916,7 @@ def _is_whitespace_only_change(source: str, rng: core.Range, rewrite: _Rewrite) 
     """Whether the rewrite changes the text, but only its blank lines and trailing whitespace."""
     code = source[rng.start : rng.end]
     new_code = _replacement_text(rewrite)
-    return new_code != code and _significant_lines(new_code) == _significant_lines(code)
+    return new_code != code and _same_significant_lines(code, new_code)
 
 
 def _apply_rewrites(source: str, rewrites: Sequence[Tuple[Any, Callable]]) -> str:
